@@ -19,6 +19,7 @@ type op struct {
 	O  int    `json:"o,omitempty"`
 	Os []int  `json:"os,omitempty"`
 	Ms int    `json:"ms,omitempty"`
+	M  string `json:"m,omitempty"` // what the sleep means for the model: "round" | "recover"
 }
 
 type obs struct {
@@ -60,17 +61,21 @@ func runC17(cs *c17Case) {
 	}
 	mainSt := newMainStorage(dir + "/main")
 	fs := &failStor{Storage: mainSt, idx: idx, sizes: cs.Sizes, poison: map[int]bool{}, delay: 5 * time.Millisecond}
-	wc := writecache.New(
-		writecache.WithPath(dir+"/wc"),
-		writecache.WithStorage(fs),
-		writecache.WithFlushWorkersCount(cs.Workers),
-		writecache.WithMaxFlushBatchThreshold(cs.Thr),
-		writecache.WithMaxFlushBatchCount(cs.Cnt),
-		writecache.WithMaxFlushBatchSize(cs.Msz),
-		writecache.WithNoSync(true),
-	)
-	must(wc.Open(false))
-	must(wc.Init(common.ID{}))
+	newWC := func() writecache.Cache {
+		wc := writecache.New(
+			writecache.WithPath(dir+"/wc"),
+			writecache.WithStorage(fs),
+			writecache.WithFlushWorkersCount(cs.Workers),
+			writecache.WithMaxFlushBatchThreshold(cs.Thr),
+			writecache.WithMaxFlushBatchCount(cs.Cnt),
+			writecache.WithMaxFlushBatchSize(cs.Msz),
+			writecache.WithNoSync(true),
+		)
+		must(wc.Open(false))
+		must(wc.Init(common.ID{}))
+		return wc
+	}
+	wc := newWC()
 
 	toIdx := func(m map[oid.Address]uint64) ([]int, uint64) {
 		r := make([]int, 0, len(m))
@@ -120,6 +125,11 @@ func runC17(cs *c17Case) {
 			fs.poison = map[int]bool{}
 			fs.failSeq = nil
 			fs.mu.Unlock()
+		case "restart":
+			// a new process on the same directory: counters are rebuilt by initCounters
+			quiesce(fs)
+			must(wc.Close())
+			wc = newWC()
 		case "sleep":
 			time.Sleep(time.Duration(o.Ms) * time.Millisecond)
 		case "obs":
@@ -212,6 +222,7 @@ func genSched(r *rng, id int) *c17Case {
 	cs.Payload = distinctPayloads(r, n, small, big, nbig)
 	genParams(r, cs, small, big)
 	rounds := 1 + r.intn(3)
+	cs.Script = append(cs.Script, op{T: "sleep", Ms: 500})
 	for k := 0; k < rounds; k++ {
 		np := 1 + r.intn(n+2)
 		for j := 0; j < np; j++ {
@@ -220,7 +231,11 @@ func genSched(r *rng, id int) *c17Case {
 		if r.chance(1, 6) {
 			cs.Script = append(cs.Script, op{T: "del", O: r.intn(n)})
 		}
-		cs.Script = append(cs.Script, op{T: "obs"}, op{T: "sleep", Ms: 1000}, op{T: "obs"})
+		if r.chance(1, 6) {
+			// ticks of the new cache are at +1s from now: re-align the observation points
+			cs.Script = append(cs.Script, op{T: "restart"}, op{T: "sleep", Ms: 500})
+		}
+		cs.Script = append(cs.Script, op{T: "obs"}, op{T: "sleep", Ms: 1000, M: "round"}, op{T: "obs"})
 	}
 	return cs
 }
@@ -250,10 +265,10 @@ func genAbort(r *rng, id int) *c17Case {
 	}
 	cs.Script = append(cs.Script,
 		op{T: "obs"},
-		op{T: "sleep", Ms: 1500}, op{T: "obs"}, // round 1 (t=1s) done, scheduler in its error back-off (if any call failed)
+		op{T: "sleep", Ms: 1500, M: "round"}, op{T: "obs"}, // round 1 (t=1s) done, scheduler in its error back-off (if any call failed)
 		op{T: "heal"},
-		op{T: "sleep", Ms: 10000}, op{T: "obs"}, // t=11.5s: round 2 done
-		op{T: "sleep", Ms: 1500}, op{T: "obs"}, // one more round
+		op{T: "sleep", Ms: 10000, M: "recover"}, op{T: "obs"}, // t=11.5s: back-off over, round 2 and the buffered tick's round done
+		op{T: "sleep", Ms: 1200, M: "round"}, op{T: "obs"}, // tick at 12s
 	)
 	return cs
 }
